@@ -225,6 +225,13 @@ Theorem C02_pi_fortran_refuted_before_fix : fixed_fortran_pi = false -> backend_
 Proof. exact backend_pi_fortran_before_fix. Qed.
 Print Assumptions C02_pi_fortran_refuted_before_fix.
 
+(* ------------------------------------------------------------------------------------------------ (vii) step-count cadence *)
+(* int(np.round(dts/dt)) on the exact quotient: a sampling step m*dt means m updates per stored row, for every step size (decimal or not);
+   the code rounds the FLOAT quotient, which agrees with this whenever |float error| < 1/2 - the stream records any disagreement *)
+Theorem C02_cadence_multiple : forall (dt : Qc) (m : Z), dt <> Q2Qc 0 -> round_half_even ((Q2Qc (inject_Z m) * dt) / dt)%Qc = m.
+Proof. exact cadence_multiple. Qed.
+Print Assumptions C02_cadence_multiple.
+
 (* ------------------------------------------------------------------------------------------------ non-vacuity *)
 (* a grid with uneven spacing, a query inside, outside and on a grid point: all three helpers give 5/2, 1, 7, 3;
    a time-free 2x2 linear system satisfies the guard and all four backends give the same three Heun rows *)
